@@ -164,7 +164,7 @@ PROPS = {
     },
     'C07': {
         'source_transfer': ['TransferTypes', 'TransferBlocks'],
-        'source_tie': ['Types', 'Blocks'],
+        'source_tie': ['Types', 'Fields', 'Blocks'],
         'jobs': [{'component': 'fields', 'profile': 'decode', 'quick': 30, 'thorough': 400},
                  {'component': 'ch', 'profile': 'all-text', 'quick': 1, 'thorough': 1},
                  {'component': 'ch', 'profile': 'random', 'quick': 500, 'thorough': 5000},
@@ -180,7 +180,7 @@ PROPS = {
     },
     'C08': {
         'source_transfer': ['TransferTypes', 'TransferValget', 'TransferBlocks'],
-        'source_tie': ['Types', 'CfgKeyData', 'CfgItem', 'Valget', 'Blocks'],
+        'source_tie': ['Types', 'Fields', 'CfgKeyData', 'CfgItem', 'Valget', 'Blocks'],
         'jobs': [{'component': 'fields', 'profile': 'decode', 'quick': 30, 'thorough': 400},
                  {'component': 'ch', 'profile': 'all-text', 'quick': 1, 'thorough': 1},
                  {'component': 'ch', 'profile': 'random', 'quick': 500, 'thorough': 5000},
